@@ -1,0 +1,27 @@
+//go:build verif
+
+// Package verifhook carries the instrumentation points used by the model-based
+// verification harness. It is only active when built with the `verif` tag.
+package verifhook
+
+import "context"
+
+// Sink receives every instrumentation event. blocking is true for Yield points
+// (outside critical sections: the sink may park the calling goroutine) and
+// false for Note points (inside critical sections: the sink must not block).
+var Sink func(ctx context.Context, blocking bool, point string, kv ...any)
+
+// Enabled reports whether hooks are compiled in.
+const Enabled = true
+
+func Yield(ctx context.Context, point string, kv ...any) {
+	if s := Sink; s != nil {
+		s(ctx, true, point, kv...)
+	}
+}
+
+func Note(ctx context.Context, point string, kv ...any) {
+	if s := Sink; s != nil {
+		s(ctx, false, point, kv...)
+	}
+}
